@@ -277,9 +277,11 @@ func (pg *program) Generate() (err error) {
 	}()
 	pkgInfos := pg.program.InitialPackages()
 
-	// sort.Slice(pkgInfos, func(i, j int) bool {
-	// 	return pkgInfos[i].String() < pkgInfos[j].String()
-	// })
+	// InitialPackages ranges over a map: without an order of our own, which packages have been
+	// written when a later one fails differs from run to run.
+	sort.Slice(pkgInfos, func(i, j int) bool {
+		return pkgInfos[i].Pkg.Path() < pkgInfos[j].Pkg.Path()
+	})
 	for i := range pkgInfos {
 		if err := pg.generatePackage(pkgInfos[i]); err != nil {
 			restoreDerived(pg.hidden)
